@@ -3,6 +3,7 @@ import FrappyProofs.Lemmas.MatchAcc
 import FrappyProofs.Lemmas.Timed
 import FrappyProofs.Lemmas.Shutdown
 import FrappyProofs.Lemmas.Conn
+import FrappyProofs.Lemmas.ReconnectInv
 import FrappyModel.Generated.C11
 /-
 C11 — property theorems (nothing but property theorems and their non-vacuity examples).
@@ -388,6 +389,132 @@ example : (match Frappy.Client.Conn.run {} [.peerRst, .call .readline .closed, .
       | .ok _ => false) = true
     ∧ connFirstBad {} [.peerRst, .call .readline .closed, .call .shutdown (.otherErr "OSError")] 0 = some 2 := by
   decide
+
+end
+
+/-! ## the life cycle across connections: connect(), reconnect threads, disconnect() -/
+
+section
+open Frappy.Client.Reconnect
+
+/-- The full statement for the shutdown clauses on the life-cycle model: while the shutdown request of a user's
+`disconnect()` that has returned stands, the client is not connected, nobody is about to connect, and no worker thread is
+left in its loop. -/
+def shutdown_final_statement (cfg : Cfg) : Prop :=
+  ∀ s : St, Reachable cfg s → StaysShutDown s ∧ NoWorkerLeft s
+
+/-- Proved part (repaired client: `disconnect(True)` waits for every registered reconnect thread): in every reachable
+state — any number of user threads calling `disconnect()` and `request()`, any number of connections made, refused and
+lost, any number of reconnect threads, any interleaving — while the shutdown request of a returned user `disconnect()`
+stands, `self.io` is `None` and no thread is past the test of the flag inside `connect()`: no connection exists and none
+can come into being until a user asks for one.
+Missing for the full statement: `NoWorkerLeft` (that the tx / rx threads the returned `disconnect()` did not wait for —
+those of earlier connections, still finishing their own `disconnect(False)` — are out of their loops; the invariant
+needed, "`self.io is None` implies every worker has left its loop", does not hold at all program points: see the design
+notes) and termination of `disconnect()` itself (a liveness property; `marker_eaten_hangs` shows what it rules out). -/
+theorem shutdown_final_partial (cfg : Cfg) (hj : cfg.joinAll = true) (s : St) (h : Reachable cfg s) :
+    StaysShutDown s := by
+  intro u U hU _ hpc hs
+  have inv := reachable_inv hj h
+  refine ⟨(inv.io u U hU hs).2 (by simp [hpc, isP2]), fun i t ht => ?_⟩
+  cases hw : inWindow t
+  · rfl
+  · have := covered_isJ (inv.win u U i t hU hs ht hw).2
+    simp [hpc, isJ] at this
+
+/-- The reconnect threads never revoke a shutdown request (any configuration, any reachable state). -/
+theorem reconnect_never_revokes (cfg : Cfg) (hj : cfg.joinAll = true) (s : St) (h : Reachable cfg s) :
+    ReconnectKeepsFlag s := by
+  intro i t ht hk hpc
+  have := ((reachable_inv hj h).reg i t ht hk).2 (by simp [hpc, regPc, cPc])
+  simpa using this
+
+/-- The client before `9008084` (`joinAll := false`: `disconnect(True)` cancels and joins the latest reconnect thread
+only).  Connection 0 breaks: reconnect thread 2.  A request connects anew (connection 1), that breaks too: reconnect
+thread 6, now `_connthread`.  Thread 2 enters `connect()` and passes the test of the flag.  A user calls `disconnect()`:
+it sets the flag, cancels and joins thread 6 and returns — its request stands.  Thread 2 then establishes connection 2. -/
+def cfgLatestOnly : Cfg := { joinAll := false }
+
+def traceOlderReconnect : List Cmd := [
+  .act (.drop 0), .act (.th 1 1), .to 1 .d5, .to 0 .done, .to 1 .done,
+  .act .newReq, .to 3 .done,
+  .act (.drop 1), .to 4 .rread, .act (.th 4 1), .to 4 .d5, .to 5 .done, .to 4 .done,
+  .to 2 .c6,
+  .act .newDisc, .to 7 .s4, .to 6 .done, .to 7 .done,
+  .to 2 .done ]
+
+theorem older_reconnect_connects_after_shutdown :
+    ∃ s : St, Reachable cfgLatestOnly s ∧ ¬ StaysShutDown s := by
+  have hc : (exec cfgLatestOnly {} traceOlderReconnect).map (fun s =>
+      (s.th[7]?.map (fun U => U.kind == .userDisc && U.pc == .done && standing s U)) == some true && s.io == some 2)
+      = some true := by decide +kernel
+  cases he : exec cfgLatestOnly {} traceOlderReconnect with
+  | none => rw [he] at hc; cases hc
+  | some s =>
+    rw [he] at hc
+    refine ⟨s, exec_reachable Reachable.init he, fun hst => ?_⟩
+    simp only [Option.map_some, Option.some.injEq, Bool.and_eq_true, beq_iff_eq] at hc
+    cases hU : s.th[7]? with
+    | none => rw [hU] at hc; simp at hc
+    | some U =>
+      rw [hU] at hc
+      simp only [Option.map_some, Option.some.injEq, Bool.and_eq_true, beq_iff_eq] at hc
+      have := (hst 7 U hU hc.1.1.1 hc.1.1.2 hc.1.2).1
+      rw [this] at hc
+      simp at hc
+
+/-- the repaired client in the same situation: the user's `disconnect()` also waits for thread 2, which connects
+(connection 2, workers 8 and 9); the `disconnect()` then tears that connection down; in the end nothing is left -/
+example : (exec {} {} (traceOlderReconnect.take 15 ++
+      [.to 7 .s4, .to 6 .done, .to 7 .s8, .to 2 .done, .to 7 .d5, .to 9 .d8, .to 8 .done, .to 9 .done,
+       .to 7 .done])).map
+    (fun s => s.io == none && workersAlive s == [] && (s.th[7]?.map (fun U => U.pc == .done && standing s U)) == some true)
+    = some true := by
+  decide +kernel
+
+/-- The client before `a051020` (`keepMarker := false`: the final drain of `disconnect()` swallows a shutdown marker).
+A send fails: the tx thread 0 runs `disconnect(False)` and waits for the rx thread.  A user (thread 3) calls
+`disconnect()` and gets as far as shutting down connection 0.  The rx thread ends and clears `self.io`.  The tx thread
+goes on to just before its final drain.  A request (thread 4) connects anew: queue 1, connection 1, rx 5, tx 6; tx 6
+serves the two requests and blocks in `txq.get()`.  The user's `disconnect()` reads `_txthread` = 6, puts its marker into
+queue 1 and waits for thread 6.  The old tx thread's final drain takes queue 1 and swallows the marker. -/
+def cfgSwallow : Cfg := { keepMarker := false, activate := false }
+
+def traceMarkerEaten : List Cmd := [
+  .act .newReq, .to 2 .done, .to 0 .tsend, .act (.th 0 1), .to 0 .d8,
+  .act .newDisc, .to 3 .d3,
+  .act (.th 1 1), .to 1 .done,
+  .to 0 .d10p,
+  .act .newReq, .to 4 .done,
+  .to 6 .tproc, .to 6 .tget, .to 6 .tproc, .to 6 .tget, .to 5 .rread,
+  .to 3 .d5,
+  .to 0 .done ]
+
+/-- … the user's `disconnect()` hangs: it waits for a tx thread that sits on an empty queue of a healthy connection, all
+other threads have finished except the rx thread, which polls; 300 further steps of the threads change nothing. -/
+theorem marker_eaten_hangs :
+    ∃ s : St, Reachable cfgSwallow s ∧ txJoinHangs s = true ∧ txJoinHangs (runGreedy cfgSwallow 300 s) = true := by
+  have hc : (exec cfgSwallow {} traceMarkerEaten).map (fun s => txJoinHangs s && txJoinHangs (runGreedy cfgSwallow 300 s))
+      = some true := by decide +kernel
+  cases he : exec cfgSwallow {} traceMarkerEaten with
+  | none => rw [he] at hc; cases hc
+  | some s =>
+    rw [he] at hc
+    simp only [Option.map_some, Option.some.injEq, Bool.and_eq_true] at hc
+    exact ⟨s, exec_reachable Reachable.init he, hc.1, hc.2⟩
+
+/-- the repaired client, same schedule: the drain puts the marker back, the new tx thread ends, everything terminates -/
+example : (exec { activate := false } {} traceMarkerEaten).map
+    (fun s => !txJoinHangs s && (let s' := runGreedy { activate := false } 300 s
+                                 s'.th.all (fun t => t.pc == .done) && s'.io == none)) = some true := by
+  decide +kernel
+
+/-- non-vacuity of `shutdown_final_partial` / `reconnect_never_revokes`: in the run above of the repaired client the
+user's request stands at the end, and a reconnect thread passes `c2` while registered -/
+example : (exec {} {} [.act (.drop 0), .act (.th 1 1), .to 1 .d5, .to 0 .done, .to 1 .done, .to 2 .c2]).map
+    (fun s => (s.th[2]?.map (fun t => t.kind == .recon && t.pc == .c2)) == some true && s.registered.contains 2)
+    = some true := by
+  decide +kernel
 
 end
 
